@@ -1,6 +1,7 @@
 package chainh
 
 import (
+	"github.com/jmoiron/sqlx"
 	"errors"
 	"os"
 	"encoding/json"
@@ -60,6 +61,19 @@ func NewReplayer(dbPath string, seed int64) (*Replayer, error) {
 	r := &Replayer{S: s, Fault: fr, Params: p, Seed: seed, Level: 1}
 	fr.Row = os.Getenv("VERIF_ROWFAULT") == "1"
 	fr.Exec = func(q string) error { _, err := s.DB.Exec(q); return err }
+	fr.Hold = func() (func(), error) {
+		db2, err := sqlx.Open("sqlite3", fmt.Sprintf("file:%s?_foreign_keys=true", dbPath))
+		if err != nil {
+			return nil, err
+		}
+		rows, err := db2.Query("SELECT hash FROM headers")
+		if err != nil {
+			_ = db2.Close()
+			return nil, err
+		}
+		rows.Next() // the cursor stays open: a shared lock on the database file
+		return func() { _ = rows.Close(); _ = db2.Close() }, nil
+	}
 	bh := p.GenesisBlock.Header
 	raw := RawHeader{Version: bh.Version, Prev: bh.PrevBlock, Merkle: bh.MerkleRoot, Time: uint32(bh.Timestamp.Unix()), Bits: bh.Bits, Nonce: bh.Nonce}
 	r.Genesis = raw.Hash()
